@@ -177,22 +177,24 @@ let bb_grid_says (text : string) (is_set : int -> bool) : bool =
    let set_marks = List.sort_uniq compare (List.filter_map (fun (s, c) -> if is_set s then Some c else None) marks)
    and clear_marks = List.sort_uniq compare (List.filter_map (fun (s, c) -> if is_set s then None else Some c) marks) in
    List.length set_marks <= 1 && List.length clear_marks <= 1 && (set_marks = [] || clear_marks = [] || set_marks <> clear_marks))
-(* move list: the SAN texts in order as separate tokens, move numbers consecutive from 1 *)
+(* move list: the SAN texts in order as separate tokens; a move number (consecutive from 1) before every White move and
+   before a Black first move, where it is followed by the continuation dots; dots nowhere else *)
+type mtok = Num of int | Dots | Mv of string
 let movelist_says (text : string) (sans : string list) (white_first : bool) : bool =
   let toks = List.filter (fun t -> t <> "") (String.split_on_char ' ' (String.concat " " (lines_of text))) in
-  let nums = ref [] and moves = ref [] in
-  List.iter (fun t ->
-      (* a leading run of digits followed by dots is a move number; what remains (if anything) is a move token; bare dots are filler *)
+  let items = List.concat_map (fun t ->
       let n = String.length t in
       let i = ref 0 in while !i < n && t.[!i] >= '0' && t.[!i] <= '9' do incr i done;
       let j = ref !i in while !j < n && t.[!j] = '.' do incr j done;
-      if !i > 0 && !j > !i then begin nums := int_of_string (String.sub t 0 !i) :: !nums; if !j < n then moves := String.sub t !j (n - !j) :: !moves end
-      else if !i = 0 && !j = n then ()
-      else moves := t :: !moves) toks;
-  let nums = List.rev !nums and moves = List.rev !moves in
-  let nm = List.length sans in
-  let want_nums = if nm = 0 then 0 else if white_first then (nm + 1) / 2 else nm / 2 + 1 in
-  moves = sans && nums = List.init want_nums (fun k -> k + 1)
+      if !i > 0 && !j > !i then
+        (Num (int_of_string (String.sub t 0 !i)) :: (if !j - !i > 1 then [Dots] else [])) @ (if !j < n then [Mv (String.sub t !j (n - !j))] else [])
+      else if !i = 0 && !j = n then [Dots]
+      else [Mv t]) toks in
+  let expected = List.concat (List.mapi (fun k s ->
+      if white_first then (if k mod 2 = 0 then [Num (k / 2 + 1); Mv s] else [Mv s])
+      else if k = 0 then [Num 1; Dots; Mv s]
+      else if k mod 2 = 1 then [Num ((k + 3) / 2); Mv s] else [Mv s]) sans) in
+  items = expected
 let check_B line toks =
   let fs = fields_of toks in
   let get k = List.assoc_opt k fs in
